@@ -16,12 +16,34 @@ use crate::sim::*;
 use mdns_sd::ServiceInfo;
 use serde_json::{json, Value};
 
+thread_local! {
+    /// the scenario under way runs on a dual-stack interface (the services then have an address of either version, so
+    /// that what is announced and withdrawn goes out once per IP version)
+    static DUAL: std::cell::Cell<bool> = std::cell::Cell::new(false);
+}
+fn dual() -> bool {
+    DUAL.with(|c| c.get())
+}
+const V6ADDR: &str = "fd00::1:10";
+
 fn topo() -> Vec<IfSpec> {
+    DUAL.with(|c| c.set(false));
     vec![IfSpec { name: "eth0".into(), index: 2, addrs: vec![(v4(192, 168, 1, 10), 24)], up: true }]
+}
+fn topo_for(id: u64) -> Vec<IfSpec> {
+    let mut t = topo();
+    if id % 2 == 1 {
+        DUAL.with(|c| c.set(true));
+        t[0].addrs.push((V6ADDR.parse().unwrap(), 64));
+    }
+    t
+}
+fn addrs() -> String {
+    if dual() { format!("192.168.1.10,{}", V6ADDR) } else { "192.168.1.10".to_string() }
 }
 
 fn svc(k: usize) -> ServiceInfo {
-    ServiceInfo::new("_life._tcp.local.", &format!("svc{}", k), &format!("lifehost{}.local.", k), "192.168.1.10", 7000 + k as u16, &[("k", "v")][..]).expect("ServiceInfo::new")
+    ServiceInfo::new("_life._tcp.local.", &format!("svc{}", k), &format!("lifehost{}.local.", k), addrs().as_str(), 7000 + k as u16, &[("k", "v")][..]).expect("ServiceInfo::new")
 }
 
 /// One call of the abstract kind `kind`; `k` makes names distinct.
@@ -75,7 +97,7 @@ pub fn scenario_case(id: u64, seed: u64, case: &Value) -> Vec<Value> {
     let cuts: Vec<usize> = case["cuts"].as_array().unwrap().iter().map(|x| x.as_u64().unwrap() as usize).collect();
     let warm = r.chance(1, 2);
     let hold = r.chance(1, 3);
-    let mut sim = Sim::new(json!({"id": id, "family": "lifecases", "warm": warm, "hold": hold}), seed ^ id, vec![topo()], vec![vec![(0, 2)]]);
+    let mut sim = Sim::new(json!({"id": id, "family": "lifecases", "warm": warm, "hold": hold, "dual": id % 2 == 1}), seed ^ id, vec![topo_for(id)], vec![vec![(0, 2)]]);
     let d = sim.spawn(0);
     let mut k = 100;
     if warm {
@@ -91,7 +113,7 @@ pub fn scenario_case(id: u64, seed: u64, case: &Value) -> Vec<Value> {
         if id % 3 == 0 {
             // the announced service is registered again with changed data: while that is being probed (the schedule
             // below falls into those 750 ms) a shutdown still owes the goodbye for what was announced
-            let again = ServiceInfo::new("_life._tcp.local.", &format!("svc{}", k), &format!("lifehost{}.local.", k), "192.168.1.10", 7000 + k as u16, &[("k", "changed")][..]).expect("ServiceInfo::new");
+            let again = ServiceInfo::new("_life._tcp.local.", &format!("svc{}", k), &format!("lifehost{}.local.", k), addrs().as_str(), 7000 + k as u16, &[("k", "changed")][..]).expect("ServiceInfo::new");
             sim.register(d, again);
             sim.kick(d);
             pause(&mut sim, 150 + (id % 4) * 130);
@@ -426,6 +448,12 @@ pub fn scenario_threads(id: u64, seed: u64) -> Vec<Value> {
     if let Some(rx) = warm_host {
         let (kinds, closed) = drain_held(&Held::Host(rx), deadline);
         warm.push(json!({"fn": "resolve_hostname", "events": kinds, "closed": closed}));
+    }
+    // the Shutdown reply and the closing of the channels precede the end of the daemon thread by a few instructions: the
+    // thread gets up to six seconds of real time to end (a loaded machine can take it off the processor right there)
+    let end_by = Instant::now() + Duration::from_millis(6000);
+    while !world.is_dead(dd) && Instant::now() < end_by {
+        std::thread::sleep(Duration::from_millis(2));
     }
     stop_clock.store(true, Ordering::Relaxed);
     let _ = clock.join();
